@@ -100,7 +100,7 @@ Proof. exact spec_short_decodes. Qed.
    message (the two theorems above).  Missing: an [of_spec] function and the induction over the parameter list that
    composes them (audit F2). *)
 
-(* 4. No misstatement: for any Go value (octets are octets; flag structs within their bit widths;
+(* 4. No misstatement: for any Go value (octets are octets; flag structs with ANY sub-field values;
    UDH present exactly when the indicator is set; data_coding <> 0xBF; skipped field zero), if Marshal
    succeeds then the value is well formed — NUL-free strings, counts and lengths that fit their
    fields — so by (2) the frame states exactly that value; otherwise Marshal reports an error. *)
@@ -109,6 +109,12 @@ Theorem C02_no_misstatement : forall lay h vs f,
   h_status h = 0 -> (h_seq h < 2147483648)%Z ->
   marshal lay (VHeader h :: vs) = Ok f -> wf_vals lay (VHeader h :: vs).
 Proof. exact marshal_ok_expressible. Qed.
+
+(* ... in particular a flag sub-field wider than its bit field is refused (after the fix: commits; it used to be masked) *)
+Theorem C02_flag_width_refused : forall lay u,
+  (forall e, esm_fits e = false -> enc_field lay u FEsm (VEsm e) = Err ESize) /\
+  (forall r, regdel_fits r = false -> enc_field lay u FRegDel (VRegDel r) = Err ESize).
+Proof. exact flag_width_refused. Qed.
 
 (* non-vacuity: the submit_sm of C01's example, laid out by the specification encoder *)
 Example C02_inhabited : exists body, lay_params (erase (lay_of 4)) (to_spec (lay_of 4) C01_example_value) = Some body /\ len body = 40.
@@ -126,3 +132,4 @@ Print Assumptions C02_dests_any_order.
 Print Assumptions C02_spec_tlvs_decode.
 Print Assumptions C02_spec_short_message_decodes.
 Print Assumptions C02_no_misstatement.
+Print Assumptions C02_flag_width_refused.
